@@ -421,7 +421,7 @@ def struct_matrix(rng, n, struct, spd=False):
             b = band()
             M = np.diag(dg + 1.0) + np.diag(b, 1) + np.diag(b, -1)
         elif struct == "full":
-            A = np.array([[rng.choice([1, -1, 2, 0]) / 64.0 for _ in range(n)] for _ in range(n)])
+            A = np.array([[rng.choice([1, -1, 2, 3]) / 64.0 for _ in range(n)] for _ in range(n)])
             M = np.diag(dg + 3.0) + (A + A.T) / 2
         return M
     if struct in ("upper-bidiag", "tridiag"):
@@ -448,7 +448,10 @@ def gaussian_format_cases(ctx, cases):
         meta = {"op": "gaussian", "form": form, "shape": struct, "sparse_input": True, "sparse_format": fmt, "dim": n,
                 "value": M.tolist(), "mean": [dy(rng) for _ in range(n)] if n <= 10 else dy(rng), "mean_kind": "vector" if n <= 10 else "scalar",
                 "iface": iface, "cellname": "%s:%s[%s]" % (form, struct, fmt),
-                "may_refuse": fmt == "dia" and struct not in ("diag",)}       # fixes/C04_gaussian_sqrtprec_dia_bands.diff may turn these into refusals
+                # refusals that are not this property's business: fixes/C04_gaussian_sqrtprec_dia_bands.diff may refuse banded DIA;
+                # cuqi.utilities.sparse_cholesky refuses some valid sparse SPD matrices (SuperLU permutes rows although the
+                # natural column order is requested, e.g. [[5,0,0,-1/128],[0,5.03125,0,1/128],[0,0,3.984375,0],[-1/128,1/128,0,4.015625]])
+                "may_refuse": (fmt == "dia" and struct != "diag") or (spd and struct != "diag")}
         cases.extend(split_verdict(gaussian_case(ctx, meta, states)))
     forms = {"sqrtprec": STRUCTURES, "sqrtcov": STRUCTURES, "prec": ("diag", "tridiag", "full"), "cov": ("diag", "tridiag", "full")}
     small = [4] if not ctx.thorough else [3, 5, 6]
